@@ -104,9 +104,6 @@ theorem forward_enumerates (t : Tree) (d fuel n : Nat) (hwf : BranchesNonEmpty t
     simp only []
     rw [hL, iterNext_after hwf hd hf n st' hv' (by rw [hL] at hn; simp at hn; omega)]
 
-theorem leafIn_ne_nil {st : Stack} (h : LeafIn st) : st ≠ [] := by
-  intro h'; rw [h'] at h; exact h
-
 theorem iterPrev_before {t : Tree} {d fuel : Nat} (hwf : BranchesNonEmpty t) (hd : depth t ≤ d)
     (hf : size t ≤ fuel) : ∀ (n : Nat) (st : Stack), VS t st → st ≠ [] → (before st).length ≤ n →
       iterPrev d fuel t n st = (before st).reverse
@@ -150,9 +147,30 @@ theorem backward_enumerates (t : Tree) (d fuel n : Nat) (hwf : BranchesNonEmpty 
 theorem seek_spec (t : Tree) (d fuel : Nat) (k : Bytes) (hwf : BranchesNonEmpty t) (hs : SearchTree t)
     (hd : depth t ≤ d) (hf : size t ≤ fuel) :
     (seek d fuel t k).2 = (flatten t).find? (fun it => !Bytes.lt it.key k) := by
-  sorry
+  exact seek_find k hwf hs hd hf
 
 /-! ### mixed navigation = a sorted list with a position -/
+
+theorem step_refines {t : Tree} {d fuel : Nat} (hwf : BranchesNonEmpty t) (hs : SearchTree t)
+    (hne : NoEmptyLeafBelowRoot t) (hd : depth t ≤ d) (hf : size t ≤ fuel) {st : Stack} {c : CurSpec}
+    (h : RepC t st c) (op : Op) :
+    RepC t (stepImpl d fuel t st op).1 (stepSpec c op).1 ∧
+      (stepImpl d fuel t st op).2.map Item.view = (stepSpec c op).2 := by
+  cases op with
+  | first => exact first_refines hwf hd hf h.1
+  | last => exact last_refines hwf hd hf h.1
+  | next => exact next_refines hwf hd hf hne h
+  | prev => exact prev_refines hwf hd hf h
+  | seek k => exact seek_refines hwf hd hf hs k h.1
+
+theorem run_refines {t : Tree} {d fuel : Nat} (hwf : BranchesNonEmpty t) (hs : SearchTree t)
+    (hne : NoEmptyLeafBelowRoot t) (hd : depth t ≤ d) (hf : size t ≤ fuel) :
+    ∀ (ops : List Op) (st : Stack) (c : CurSpec), RepC t st c → runImpl d fuel t st ops = runSpec c ops
+  | [], _, _, _ => rfl
+  | op :: ops, st, c, h => by
+    have hstep := step_refines hwf hs hne hd hf h op
+    simp only [runImpl, runSpec]
+    rw [hstep.2, run_refines hwf hs hne hd hf ops _ _ hstep.1]
 
 /-- **Any mixture of First/Last/Next/Prev/Seek returns what the same calls return on the
     sorted key list with a position**; running off either end yields nil and the position
@@ -164,7 +182,7 @@ theorem cursor_refines_spec_partial (t : Tree) (d fuel : Nat) (ops : List Op)
     (hwf : BranchesNonEmpty t) (hs : SearchTree t) (hne : NoEmptyLeafBelowRoot t)
     (hd : depth t ≤ d) (hf : size t ≤ fuel) :
     runImpl d fuel t [] ops = runSpec (specOf t) ops := by
-  sorry
+  exact run_refines hwf hs hne hd hf ops [] (specOf t) ⟨rfl, rfl⟩
 
 /-- F11 witness: two leaves, the second emptied; Last, Next (nil), Prev. The model (like the
     code) answers the last key again; the sorted-list specification answers the key before. -/
@@ -177,6 +195,7 @@ theorem refinement_fails_with_trailing_empty_leaf :
 
 /-! ### every call returns -/
 
+set_option linter.unusedVariables false in
 /-- The loops of `next`/`prev` never exhaust their fuel: more fuel does not change the
     result (so the unbounded Go loops terminate within `size t` iterations). -/
 theorem next_terminates (t : Tree) (d fuel : Nat) (st : Stack) (hwf : BranchesNonEmpty t)
@@ -185,6 +204,7 @@ theorem next_terminates (t : Tree) (d fuel : Nat) (st : Stack) (hwf : BranchesNo
   have hv' := (validStack_iff_VS t st).mp hv
   exact next_fuel_succ d fuel st hv' (by have := VS_sizeAfter_lt hv'; omega)
 
+set_option linter.unusedVariables false in
 theorem prev_terminates (t : Tree) (d fuel : Nat) (st : Stack) (hwf : BranchesNonEmpty t)
     (hv : ValidStack t st) (hd : depth t ≤ d) (hf : size t ≤ fuel) :
     prev d (fuel + 1) t st = prev d fuel t st := by
